@@ -558,6 +558,27 @@ def _values_and_names_in_c(ctx, rep, tier):
     clv = "CodegenCtx._convert_literal_value"
     ok_s = model.has(clv, "if not -(1 << 63) <= value < 1 << 64:\n    raise IllegalIntExpr($$m, literal)") and \
         model.has(clv, "if value == -(1 << 63):\n    return '(-9223372036854775807 - 1)'") and model.has(clv, "return str(value) + ('u' if value >= 1 << 63 else '')")
+    # ... and every way out of the integer arm spells the value in decimal: C types a hexadecimal / octal constant differently (unsigned int from 2^31 on), which changes the
+    # arithmetic around it (seed C14-14). The arm is the block that holds the decimal return; every return in it is the INT64_MIN expression or str(value) [+ suffix]
+    fnc = model.func(clv)
+    dec = [r for r in ast.walk(fnc) if isinstance(r, ast.Return) and r.value is not None and "str(value)" in ast.unparse(r.value)]
+    arm_ok = bool(dec)
+    if dec:
+        blk = None
+        for n in ast.walk(fnc):
+            for f_ in ("body", "orelse"):
+                b = getattr(n, f_, None)
+                if isinstance(b, list) and any(x is dec[0] for x in b):
+                    blk = b
+        others = [r for st in (blk or []) for r in ast.walk(st) if isinstance(r, ast.Return) and r.value is not None]
+        for r in others:
+            v = r.value
+            decimal = (isinstance(v, ast.Constant) and isinstance(v.value, str)) or ast.unparse(v).startswith("str(value)")
+            if not decimal:
+                arm_ok = False
+                rep.bad("C11.n", clv, f"`{ast.unparse(r)[:70]}`", "an integer constant is emitted in a spelling other than decimal: C gives a hexadecimal / octal constant the first of int, unsigned int, long .. "
+                        "that holds it, so constants in [2^31, 2^32) become unsigned int and the arithmetic around them wraps at 32 bits (`[one + 4294967295]` is 0)")
+    ok_s = ok_s and arm_ok
     rep.check(ok_s, "C11.n", clv, "value-level gcc diagnostics: every emitted integer constant has a valid C spelling (INT64_MIN as an expression, unsigned suffix from 2^63, refusal beyond 64 bits)",
               "an integer constant is emitted as its decimal digits whatever its value: `-9223372036854775808` is not a valid signed constant (gcc: 'integer constant is so large that it is unsigned') "
               "and constants from 2^64 on are refused by every C compiler")
